@@ -290,6 +290,10 @@ func c05WorkflowShape(shape int) {
 		nodes = []string{"a", "b", "c"}
 		g = &vG{nodes: nodes, edges: [][2]string{{START, "a"}, {START, "b"}, {"a", "c"}, {"b", "c"}, {"c", END}}}
 	}
+	if shape == 2 { // the join c gets a's field early and z's field late: at an interrupt its channel is half filled
+		nodes = []string{"a", "b", "z", "c"}
+		g = &vG{nodes: nodes, edges: [][2]string{{START, "a"}, {START, "b"}, {"b", "z"}, {"a", "c"}, {"z", "c"}, {"c", END}}}
+	}
 	mon := &c06Mon{g: g, before: map[string]bool{}, after: map[string]bool{}, allowed: map[string]int{}, pendingAft: map[string]bool{}}
 	desc := ""
 	for _, n := range nodes {
@@ -331,6 +335,12 @@ func c05WorkflowShape(shape int) {
 			wf.End().AddInput("c")
 			return wf
 		}
+		if shape == 2 {
+			wf.AddLambdaNode("z", mk("z")).AddInput("b")
+			wf.AddLambdaNode("c", mk("c")).AddInput("a", ToField("a")).AddInput("z", ToField("z"))
+			wf.End().AddInput("c")
+			return wf
+		}
 		wf.AddLambdaNode("c", mk("c")).AddInput("a")
 		wf.AddLambdaNode("d", mk("d")).AddInput("b")
 		wf.End().AddInput("c", ToField("c")).AddInput("d", ToField("d"))
@@ -350,7 +360,15 @@ func c05WorkflowShape(shape int) {
 	for call := 0; call < 6 && !finished; call++ {
 		setsBefore := store.sets
 		var rerr error
-		out, rerr = ri.Invoke(ctx, in, WithCheckPointID("cp"))
+		if vchoose("paradigm", 2) == 1 {
+			sr, e := ri.Stream(ctx, in, WithCheckPointID("cp"))
+			rerr = e
+			if e == nil {
+				out, rerr = vDrainMap(sr)
+			}
+		} else {
+			out, rerr = ri.Invoke(ctx, in, WithCheckPointID("cp"))
+		}
 		if rerr == nil {
 			finished = true
 			a6(store.sets == setsBefore, "no checkpoint is written when the call returns without an interrupt ("+desc+")")
@@ -390,6 +408,9 @@ func VerifC06Workflow() { c05Mode = 6; c05Workflow() }
 
 func VerifC05WorkflowJoin() { c05WorkflowShape(1) }
 func VerifC06WorkflowJoin() { c05Mode = 6; c05WorkflowShape(1) }
+
+func VerifC05WorkflowLateJoin() { c05WorkflowShape(2) }
+func VerifC06WorkflowLateJoin() { c05Mode = 6; c05WorkflowShape(2) }
 
 // ---- nested graph with its own interrupt points, inside a cycle of the outer graph:
 //
@@ -1190,3 +1211,112 @@ func c05RerunControlOnly() {
 
 func VerifC05RerunControlOnly() { c05RerunControlOnly() }
 func VerifC06RerunControlOnly() { c05Mode = 6; c05RerunControlOnly() }
+
+type c05V struct{ V int }
+type c05J struct{ A, Z int }
+
+var c05JRegistered = false
+
+// a struct-typed join fed through field mappings by an early lane (a) and a late lane (b -> z): at the interrupt its
+// channel holds a's mapped field only; every call picks its paradigm
+func c05TypedJoin() {
+	ctx := context.Background()
+	vcfg("fifo", 1)
+	vcfg("selectfirst", 1)
+	_ = RegisterSerializableType[c05V]("c05_v")
+	_ = RegisterSerializableType[c05J]("c05_j")
+	if !c05JRegistered {
+		RegisterStreamChunkConcatFunc(func(cs []c05J) (c05J, error) {
+			var r c05J
+			for _, c := range cs {
+				if c.A != 0 {
+					r.A = c.A
+				}
+				if c.Z != 0 {
+					r.Z = c.Z
+				}
+			}
+			return r, nil
+		})
+		c05JRegistered = true
+	}
+	x := vsymInt("x")
+	vassume(x > 0 && x < 1000)
+	counts := map[string]int{}
+	node := func(key string, add int) *Lambda {
+		return InvokableLambda(func(ctx context.Context, in c05V) (c05V, error) {
+			vMu.Lock()
+			counts[key]++
+			vMu.Unlock()
+			return c05V{V: in.V + add}, nil
+		})
+	}
+	build := func(interrupts bool, store CheckPointStore, point int) (Runnable[c05V, int], error) {
+		wf := NewWorkflow[c05V, int]()
+		wf.AddLambdaNode("a", node("a", 1)).AddInput(START)
+		wf.AddLambdaNode("b", node("b", 10)).AddInput(START)
+		wf.AddLambdaNode("z", node("z", 100)).AddInput("b")
+		wf.AddLambdaNode("c", InvokableLambda(func(ctx context.Context, in c05J) (int, error) {
+			vMu.Lock()
+			counts["c"]++
+			vMu.Unlock()
+			return in.A*10000 + in.Z, nil
+		})).AddInput("a", MapFields("V", "A")).AddInput("z", MapFields("V", "Z"))
+		wf.End().AddInput("c")
+		var opts []GraphCompileOption
+		if interrupts {
+			opts = append(opts, WithCheckPointStore(store))
+			switch point {
+			case 0:
+				opts = append(opts, WithInterruptAfterNodes([]string{"a"}))
+			case 1:
+				opts = append(opts, WithInterruptBeforeNodes([]string{"z"}))
+			case 2:
+				opts = append(opts, WithInterruptAfterNodes([]string{"b"}))
+			case 3:
+				opts = append(opts, WithInterruptBeforeNodes([]string{"c"}))
+			}
+		}
+		return wf.Compile(ctx, opts...)
+	}
+	point := vchoose("point", 4)
+	store := &vStore{m: map[string][]byte{}}
+	ri, err := build(true, store, point)
+	vassert(err == nil, "workflow with a struct-typed join compiles")
+	want := (x+1)*10000 + (x + 110)
+	var out int
+	var rerr error
+	finished := false
+	for call := 0; call < 4 && !finished; call++ {
+		if vchoose("paradigm", 2) == 1 {
+			sr, e := ri.Stream(ctx, c05V{V: x}, WithCheckPointID("tj"))
+			rerr = e
+			if e == nil {
+				out, rerr = sr.Recv()
+				sr.Close()
+			}
+		} else {
+			out, rerr = ri.Invoke(ctx, c05V{V: x}, WithCheckPointID("tj"))
+		}
+		if rerr == nil {
+			finished = true
+			break
+		}
+		_, ok := ExtractInterruptInfo(rerr)
+		if !ok {
+			vlog("error: " + rerr.Error())
+		}
+		a5(ok, "typed join: the (resumed) run is only ever stopped by interrupts, not by a checkpoint conversion failure")
+		a6(ok, "typed join: only interrupt errors")
+		if !ok {
+			return
+		}
+	}
+	a5(finished && out == want, "typed join: the resumed run returns the uninterrupted result")
+	for _, k := range []string{"a", "b", "z", "c"} {
+		a5(counts[k] == 1, "typed join: node "+k+" executed exactly once over all calls")
+	}
+}
+
+func VerifC05TypedJoin() { c05TypedJoin() }
+func VerifC06TypedJoin() { c05Mode = 6; c05TypedJoin() }
